@@ -32,6 +32,7 @@ func runC09(c *Ctx) {
 	L.Rule("R-C09-ARGMIN", "whole-sample scan, strict <, running minimum from MaxInt64, key/hits/index/cost from the same element", 3)
 	L.Rule("R-C09-REJECT", "reject iff incoming estimate strictly below the arg-min's; evict only on the other side", 2)
 	L.Rule("R-C09-VICTIM", "evict.del key and victim item = arg-min key/cost; arg-min element removed from sample; sample refilled each round", 4)
+	L.Rule("R-C09-ACCOUNT", "\"fits in the remaining capacity\" is judged on an exact figure: every writer keeps used == sum(keyCosts) (shared with C03)", 4)
 	L.Rule("R-C09-SAMPLE", "fillSample appends ranged keyCosts pairs only, up to lfuSample", 1)
 	L.Rule("R-C09-ESTIMATE", "tinyLFU.Estimate = sketch estimate + 1 iff doorkeeper has the key", 1)
 	L.Rule("R-C09-REPORT", "rejected newcomer -> onReject; victims loop reached on both outcomes", 2)
@@ -39,6 +40,7 @@ func runC09(c *Ctx) {
 	L.Rule("R-C09-STREAM", "recorded accesses reach the sketch unaltered: ring stripe batches are not reused after the hand-off", 3)
 	L.Rule("R-C09-COUNTERS", "cmRow.get/increment agree on the nibble and increment saturates at the mask value", 3)
 	fastPathRule(c, "R-C09-FAST")
+	accountingInvRule(c, "R-C09-ACCOUNT")
 	ringRule(c, "R-C09-STREAM")
 	nibbleRule(c, "R-C09-COUNTERS")
 
